@@ -188,8 +188,21 @@ def main():
         out.write(json.dumps(e, sort_keys=True) + "\n")
 
     devnull = open(os.devnull, "w")
+    confs_of_run = {}
     for rid, run in enumerate(plan["runs"], 1):
         col = run.get("reaction_col", "reaction")
+        tf = run.get("threshold_from")
+        if tf:
+            # a threshold that sits on a confidence this process reported in an earlier run of the plan:
+            # "exact" = the float as reported, "typed" = what a user reads and types (3 decimals),
+            # "above" / "below" = one thousandth off
+            cs = confs_of_run.get(tf["run"], [])
+            if cs:
+                c = cs[tf["k"] % len(cs)]
+                run["threshold"] = {"exact": c, "typed": round(c, 3), "above": min(1.0, round(c + 0.001, 3)),
+                                    "below": max(0.0, round(c - 0.001, 3))}[tf["mode"]]
+            else:
+                run["threshold"] = 0.5
         key = (col, bool(run.get("cache_dir")))
         if key not in balancers:
             balancers[key] = Balancer(reaction_col=col, n_jobs=run.get("n_jobs", 1))
@@ -265,6 +278,11 @@ def main():
         if tmp:
             os.remove(tmp)
         wall = time.time() - t0
+        if rows is not None:
+            confs_of_run[run.get("name")] = sorted({float(r["confidence"]) for r in rows
+                                                    if r.get("solved_by") == "mcs-based"
+                                                    and isinstance(r.get("confidence"), (int, float))
+                                                    and r["confidence"] == r["confidence"]})
         args = [arg_of(x, col) for x in inputs]
         aligned = rows is not None and len(rows) == len(inputs)
         summary = []
